@@ -177,7 +177,7 @@ class Ctx:
         e = {"TRACE": trace_path}
         if env:
             e.update(env)
-        j = list(jvm)
+        j = list(jvm) + ["-Xss64m"]
         if dfs:
             j.append("-Dtlc2.tool.queue.IStateQueue=StateDeque")
         for attempt in range(3):
